@@ -233,7 +233,15 @@ func TestForkAdoption(t *testing.T) {
 			t.Fatalf("fork accepted although: %s (%s)\nprefix history:\n%s", why, desc, h.Summary())
 		}
 		if !accepted && mustAccept {
-			t.Fatalf("valid, certified, longer fork refused: %v (%s)\nprefix history:\n%s", err, desc, h.Summary())
+			branches := "own branch:"
+			for _, b := range ownBlocks {
+				branches += "\n  " + sim.BlockDesc(b) + fmt.Sprintf(" time=%d", b.Header.Time())
+			}
+			branches += "\nfork:"
+			for _, b := range bundles {
+				branches += "\n  " + sim.BlockDesc(b.Block) + fmt.Sprintf(" time=%d root=%x", b.Block.Header.Time(), b.Block.Root())
+			}
+			t.Fatalf("valid, certified, longer fork refused: %v (%s)\n%s\nprefix history:\n%s", err, desc, branches, h.Summary())
 		}
 		if !accepted {
 			evid.Count("verdict.refused")
